@@ -125,7 +125,13 @@ func runOne(seed uint64, n int, opt hist.Options) ([]byte, error) {
 			if d > md {
 				md = d
 			}
-		case k < 82:
+		case k < 78:
+			// a late, out-of-order announcement of a block that is (or was) on the node's chain
+			if id := r.Intn(len(h.Blocks)); id > 0 {
+				h.Process(h.Blocks[id])
+				h.Stale = true
+			}
+		case k < 84:
 			if len(h.Wallets) > 0 {
 				wi := h.Wallets[r.Intn(len(h.Wallets))]
 				if _, err := h.NewAddress(wi, 0); err != nil {
